@@ -1602,6 +1602,13 @@ def m_cow_deref(ex, st, fr, path, args, m):
     return Ref(r.cell, r.path + (("f", 0),), None, False, False)
 
 
+@model(r"^<(?:ordered_float::)?OrderedFloat<(f64|f32)> as (?:std::convert::)?From<(f64|f32)>>::from$|^(?:ordered_float::)?OrderedFloat::<(f64|f32)>::into_inner$")
+def m_ordered_float_from(ex, st, fr, path, args, m):
+    if path.endswith("into_inner"):
+        return args[0].fields[0]
+    return Agg("struct", [args[0]], name="OrderedFloat")
+
+
 @model(r"^<(?:ordered_float::)?OrderedFloat<(f64|f32)> as (?:std::ops::)?(Deref|DerefMut)>::(deref|deref_mut)$")
 def m_ordered_float_deref(ex, st, fr, path, args, m):
     r = args[0]
